@@ -35,6 +35,7 @@ type SpecEnv struct {
 	sig     *types.Signature
 	entry   bool // parameters denote entry values
 	witFr   *Frame
+	inWitness bool
 }
 
 // witnesses: current values of integer-typed named locals (most recent first).
@@ -53,6 +54,29 @@ func (e *SpecEnv) witnesses() []string {
 	sort.Strings(names)
 	var out []string
 	seen := map[string]bool{}
+	// explicit candidates from the contract, evaluated in the frame (skipped
+	// where a variable is not live on this path)
+	if fr.contract != nil && !e.inWitness {
+		for _, we := range fr.contract.Witness {
+			func() {
+				defer func() {
+					if r := recover(); r != nil {
+						if _, ok := r.(*SpecError); !ok {
+							panic(r)
+						}
+					}
+				}()
+				we2 := *e
+				we2.fr = fr
+				we2.inWitness = true
+				v := we2.eval(we)
+				if t := we2.asInt(v); !seen[t] {
+					seen[t] = true
+					out = append(out, t)
+				}
+			}()
+		}
+	}
 	for _, n := range names {
 		pv := fr.vars[n]
 		if pv.K != KPtr || pv.B != BCell || len(pv.Path) != 0 {
@@ -669,7 +693,7 @@ func (e *SpecEnv) quant(n *SQuant) Value {
 			var ds []string
 			for _, w := range e.witnesses() {
 				ds = append(ds, e.bind(n.Vars[0].Name, intV(w)).evalBool(n.Body))
-				if len(ds) >= 6 {
+				if len(ds) >= 14 {
 					break
 				}
 			}
